@@ -5,7 +5,7 @@ from scen import *
 
 CYCLE = ['SNone', 'SOngoing', 'SFired', 'SFired', 'SOngoing', 'SOngoing', 'SNone', 'SFired', 'SNone', 'SNone', 'SOngoing', 'SNone']
 
-def make_cfg(rng, menu, ents, L, nact=2, keyed=False, scripts=None, blockers=False):
+def make_cfg(rng, menu, ents, L, nact=2, keyed=False, scripts=None, blockers=False, pad=None):
     """every context type gets nact actions driven by scripted explicit conditions; holders of a shared type share one spec"""
     ids = Ids()
     cfg = {}
@@ -19,7 +19,7 @@ def make_cfg(rng, menu, ents, L, nact=2, keyed=False, scripts=None, blockers=Fal
                 # a plain (not events-only) blocker that fails now and then: the action drops to None and must deliver its terminal event
                 conds.append(c_script('(KBlocker false)', [rng.choice(['SFired', 'SFired', 'SFired', 'SNone']) for _ in range(L + 2)]))
             acts.append(action(ids, per_ctx[c][j], [bind(ids, key(c % 4), [], [])] if keyed else [], [], conds))
-        return spec(acts)
+        return spec(acts, pad=pad)
     per_ctx = {}
     for c in menu:
         per_ctx[c] = []
